@@ -172,10 +172,102 @@ func zzC09(kind int, nwords int, T int) {
 	zzReach("end")
 }
 
+// zzC09Race: runs whose only obligations are the engine's happens-before race obligations (symgo/race.go).
+//
+// shape 0: one VM, two unbonded processors over the C09 opcode set.
+// shape 1: one VM, a producer (r2owa) bonded to two consumers (i2rw): handshake flags, deferred instructions.
+// shape 2: two simulations of two machines, each stepped by its own goroutine (what cmd/simfinetune's workers do).
+// shape 3: as shape 1 with a per-opcode delay (solver variable in 0..2) on every opcode.
+// shape 4: vacuity witness (an unsynchronised shared write in the harness itself must be reported).
+func zzC09Race(shape int, nwords int, T int) {
+	switch shape {
+	case 0:
+		d0 := zzC09Domain("prog0", nwords)
+		d1 := zzC09Domain("prog1", nwords)
+		a := zzC09VM(zzC09Machine(d0, d1), zzRegs("reg", 2))
+		for t := 0; t < T; t++ {
+			a.Step(nil)
+		}
+	case 1, 3:
+		bm := new(Bondmachine)
+		bm.Rsize = 8
+		prod := zzPMachine(8, 1, 0, 1, 0, 2, "inc,j,nop,r2owa")
+		zzSymbolicProgram(prod, "prog0", nwords)
+		bm.Domains = append(bm.Domains, prod)
+		for c := 0; c < 2; c++ {
+			cons := zzPMachine(8, 1, 1, 0, 0, 2, "cpy,i2rw,inc,j,nop")
+			zzSymbolicProgram(cons, "prog"+strconv.Itoa(c+1), nwords)
+			bm.Domains = append(bm.Domains, cons)
+		}
+		bm.Init()
+		for d := 0; d <= 2; d++ {
+			bm.Add_processor(d)
+		}
+		for c := 0; c < 2; c++ {
+			bm.Add_bond([]string{"p" + strconv.Itoa(c+1) + "i0", "p0o0"})
+		}
+		vm := new(VM)
+		vm.Bmach = bm
+		if shape == 3 {
+			sd := simbox.NewSimDelays()
+			for _, op := range []string{"cpy", "i2rw", "inc", "j", "nop", "r2owa"} {
+				d := zzNondetU8("delay-" + op)
+				zzAssume(d <= 2)
+				sd.OpcodeDelays[op] = simbox.DelayDistribution{int32(d): 1}
+			}
+			vm.SimDelayMap = sd
+		}
+		vm.Init()
+		vm.Launch_processors(nil)
+		for p := range vm.Processors {
+			for i := range vm.Processors[p].Registers {
+				vm.Processors[p].Registers[i] = zzNondetU8("reg")
+			}
+		}
+		for t := 0; t < T; t++ {
+			vm.Step(nil)
+		}
+	case 4:
+		// witness of the race obligations themselves: two goroutines write one variable with no ordering
+		// between them (each only reports to main afterwards); the driver requires this to be reported
+		shared := new(int)
+		done := make(chan int)
+		for g := 0; g < 2; g++ {
+			go func(g int) {
+				if zzNondetU8("w") > uint8(g) {
+					*shared = g
+				}
+				done <- 1
+			}(g)
+		}
+		<-done
+		<-done
+	case 2:
+		d0 := zzC09Domain("prog0", nwords)
+		d1 := zzC09Domain("prog1", nwords)
+		a := zzC09VM(zzC09Machine(d0), zzRegs("reg0", 1))
+		b := zzC09VM(zzC09Machine(d1), zzRegs("reg1", 1))
+		done := make(chan int)
+		for _, vm := range []*VM{a, b} {
+			go func(vm *VM) {
+				for t := 0; t < T; t++ {
+					vm.Step(nil)
+				}
+				done <- 1
+			}(vm)
+		}
+		<-done
+		<-done
+	}
+	zzReach("end")
+}
+
 func zzDispatch(name string, args []string) {
 	atoi := func(s string) int { v, _ := strconv.Atoi(s); return v }
 	switch name {
 	case "zzC09":
 		zzC09(atoi(args[0]), atoi(args[1]), atoi(args[2]))
+	case "zzC09Race":
+		zzC09Race(atoi(args[0]), atoi(args[1]), atoi(args[2]))
 	}
 }
